@@ -50,6 +50,8 @@ type lifeWorld struct {
 	byID    map[uint32]*lifeImpl // current binding id -> instance
 	subs    []*lifeSub
 	idmap   map[uint32]uint32 // op-line id -> real id (identity except in replays)
+	lastCl     bus.Client
+	lastAction uint32
 }
 
 func (w *lifeWorld) real(id uint32) uint32 {
@@ -161,12 +163,23 @@ func execSvc(op string) func(a []string) string {
 		case "sub":
 			id := u32(a[0])
 			h, _ := strconv.ParseUint(a[1], 10, 64)
-			cl := w.srv.Client() // one connection per subscriber
-			_, events, err := cl.Subscribe(w.sid, id, 102)
+			// one connection per subscriber — or, with a third word, the connection of the previous
+			// subscriber and another signal: several subscriptions of one client on one connection
+			action := uint32(102)
+			cl := w.lastCl
+			if len(a) > 2 && cl != nil {
+				w.lastAction++
+				action = w.lastAction
+			} else {
+				cl = w.srv.Client()
+				w.lastCl = cl
+				w.lastAction = 102
+			}
+			_, events, err := cl.Subscribe(w.sid, id, action)
 			if err != nil {
 				return "err"
 			}
-			payload := append(append(le32b(id), le32b(102)...), le64b(h)...)
+			payload := append(append(le32b(id), le32b(action)...), le64b(h)...)
 			r := callT(cl, w.sid, id, 0, payload, 3*time.Second)
 			if r == "reply" {
 				inst := w.byID[id]
@@ -372,6 +385,10 @@ func runC16(r *Rand, tier string, o *Out) {
 				sub++
 				line = fmt.Sprintf("svc.sub %d %d", pick(live), sub)
 				o.Count("op:subscribe-live")
+				if r.Chance(40) {
+					line += " shared"
+					o.Count("op:subscribe-on-the-previous-connection")
+				}
 			case len(removed) > 0:
 				sub++
 				line = fmt.Sprintf("svc.sub %d %d", pick(removed), sub)
